@@ -24,6 +24,8 @@ type DP struct {
 	Rate   string // "" or decimal text in (0,1]
 	TS     int64  // receive time (ns), filled in when delivered
 	ID     int    // op index, for attribution
+	// WireDupTag: the line repeats the first tag (the tag stage de-duplicates; the series is the same)
+	WireDupTag bool
 }
 
 func (d DP) Line() string {
@@ -40,6 +42,10 @@ func (d DP) Line() string {
 	if len(d.Tags) > 0 {
 		sb.WriteString("|#")
 		sb.WriteString(strings.Join(d.Tags, ","))
+		if d.WireDupTag {
+			// the client repeats a tag on the wire: still the same series (tags are a set)
+			sb.WriteString("," + d.Tags[0])
+		}
 	}
 	return sb.String()
 }
